@@ -80,6 +80,23 @@ def plan_pt(tier, seed, props):
     return items
 
 
+def plan_eq(tier, seed, props):
+    q = tier == "quick"
+    items = []
+    opts = [NONE, SET, MSET, KEYS, O(eps=1), O(eps=4), O(eps=8)]
+    for o in opts:
+        items += [item("confusable", o, 1.0, True),
+                  item("scalarr_4_3", o, 0.15 if q else 1.0, False),
+                  item("nestarr_2", o, 0.15 if q else 1.0, False),
+                  item("obj_2", o, 0.3 if q else 1.0, False),
+                  item("keyed_2", o, 0.5 if q else 1.0, False),
+                  item("deep", o, 0.05 if q else 0.5, False)]
+        if not q:
+            items += [item("scalarr_5_3", o, 0.3, False), item("keyed_3", o, 0.5, False), item("obj_3", o, 0.2, False),
+                      item("nestarr_3", o, 0.03, False)]
+    return items
+
+
 class Stage:
     def __init__(self, driver, module, planfn, props=None, bins=False, table="plain", yaml_every=8, extra=None):
         self.driver, self.module, self.planfn = driver, module, planfn
@@ -95,6 +112,8 @@ CHECKS = {
     "C03": dict(stages=[Stage("pt", "TraceDP", plan_pt)], design=["MCPatch"],
                 rule="session = one list-mode diff with its sub-sequences applied to a, b and perturbed targets; "
                      "non-trivial = at least one target rejected and one accepted"),
+    "C04": dict(stages=[Stage("eq", "TraceEq", plan_eq)], design=["MCEq"],
+                rule="session = one (a, b, options) triple: Equals(a,b), Equals(b,a), Equals(a,a) against the canonical-form oracle"),
     "C05": dict(stages=[Stage("dp", "TraceDP", plan_dp)], design=["MCPatch"], rule="session = (a,b,options): len(Diff)=0 iff Equals"),
     "C06": dict(stages=[Stage("dp", "TraceDP", plan_dp)], design=["MCPatch"], rule="session = list-mode (a,b): hunks vs independent LCS"),
     "C07": dict(stages=[Stage("dp", "TraceDP", plan_dp)], design=["MCPatch"], rule="session = (a,b,options): per-hunk and leave-one-out"),
